@@ -79,6 +79,9 @@ class CorrResult:
         if sample is not None and len(self.samples) < 3:
             self.samples.append(sample)
 
+    def enough(self):
+        return len(self.mismatches) >= 25
+
     def summary(self):
         return {'name': self.name, 'cases': self.cases, 'ops': self.ops,
                 'distinct_nontrivial': len(self.nontrivial),
